@@ -92,6 +92,12 @@ def cli(ctx: click.Context, verbose: bool, config: str | None, project_root: str
     # Ensure context object exists
     ctx.ensure_object(dict)
 
+    # A console encoding that lacks a character of the report (the check mark, a non-ASCII path)
+    # must not turn the run into an error: such characters are written as escapes
+    for stream in (sys.stdout, sys.stderr):
+        if hasattr(stream, "reconfigure"):
+            stream.reconfigure(errors="backslashreplace")
+
     # Setup logging
     setup_logging(verbose)
 
